@@ -48,9 +48,23 @@ func runSolvers(file string, timeout time.Duration, seed int, all bool) solveRes
 		t             float64
 	}
 	ch := make(chan ans, len(solvers))
-	for _, s := range solvers {
+	for si, s := range solvers {
 		s := s
+		delay := time.Duration(0)
+		if si > 0 && !all {
+			// staggered race: most obligations fall to the first solver within a second;
+			// the others join only for the hard ones
+			delay = 1500 * time.Millisecond
+		}
 		go func() {
+			if delay > 0 {
+				select {
+				case <-time.After(delay):
+				case <-ctx.Done():
+					ch <- ans{s.Name, "unknown", "not started", 0}
+					return
+				}
+			}
 			t0 := time.Now()
 			a := s.Args(file, timeout, seed)
 			cmd := exec.CommandContext(ctx, a[0], a[1:]...)
